@@ -25,8 +25,11 @@ def snapshot(g):
 def build(am, with_bond_types=True):
     g = impl.graph_of(am, payload)
     if with_bond_types:
+        # some bonds carry a type, some carry no bond data at all (as graphs parsed from TUCAN strings do)
+        mode = am.n() % 3
         for k, (u, v) in enumerate(g.edges):
-            g.edges[u, v]["bond_type"] = 1 + (k % 3)
+            if mode == 0 or (mode == 1 and k % 2 == 0):
+                g.edges[u, v]["bond_type"] = 1 + (k % 3)
     return g
 
 
